@@ -14,6 +14,10 @@
     old_printer_*        `decide` witnesses that the printer before the fix violates the property
     zero_range_unprintable   the remaining known finding (a 0-second range has no printable form)
 
+  `printExpr` is a function of the tree, pure by construction. That the real String() is one as well — it never writes to the
+  tree, not even transiently, so that concurrent printers of one cached tree agree — is a correspondence obligation
+  discharged by the harness oracle (`printer-mutates-tree`, `print-not-reentrant`) and the race detector in the thorough tier.
+
   Not proved (checked by the correspondence on every generated case instead): that every tree `parse` returns is `wf`
   (the driver evaluates `wf` on each tree the model parser returns and the harness expects `wf 1` unless the tree holds
   a zero duration), the lexical round trip of numbers / strings / durations, and "never panics" (direct oracle only).
